@@ -1526,3 +1526,33 @@ pub fn unauthentic_packet_inert_native(first: u8) -> u32 {
     assert!(conn.total_authed_packets == 1 && conn.stats.frame_rx.ping == 1 && !conn.state.is_closed(), "an authentic packet was not processed");
     1
 }
+
+/// Native replay body for the E2 slice query `e2_handle_packet_error_block_slice` (C08), and demonstration for
+/// finding 21: the peer closes an established connection (CONNECTION_CLOSE in a 1-RTT packet); the application
+/// polls and learns the reason.  During the drain period a stateless reset arrives (the peer restarted with the
+/// same reset key and answered our closing packet).  The application must not be told a second reason.
+pub fn second_reason_native(_x: u8) -> u32 {
+    let mut conn = mk_migratable_server();
+    let now = crate::verif::mk_instant(51, 0).unwrap();
+    let home = addr(1, 4433);
+    // APPLICATION_CLOSE: error code 42, empty reason
+    deliver_short(&mut conn, now, home, 7, &[0x1d, 42, 0]);
+    assert!(conn.state.is_closed(), "the peer's close was not processed");
+    let mut reasons = Vec::new();
+    while let Some(e) = conn.poll() {
+        if let Event::ConnectionLost { reason } = e {
+            reasons.push(reason);
+        }
+    }
+    assert!(reasons.len() == 1 && matches!(reasons[0], ConnectionError::ApplicationClosed(_)), "the peer's close is reported once");
+    // a stateless reset during the drain period
+    conn.handle_packet(now, home, None, None, true);
+    while let Some(e) = conn.poll() {
+        if let Event::ConnectionLost { reason } = e {
+            reasons.push(reason);
+        }
+    }
+    assert!(reasons.len() == 1, "the application was told a second reason for the end of the connection: {:?}", reasons);
+    assert!(conn.state.is_drained(), "a stateless reset ends the drain period");
+    1
+}
